@@ -248,7 +248,7 @@ var c14FamNames = [c14NumFam]string{"formatted-ids", "formatted-all-dates", "for
 // entry under coverage.formats.observations (basket denoms are not named in the
 // first sentence of the property statement, only its "all strings fed to the
 // format validators" quantifier and its anchors cover them).
-var C14BasketSeparatorAsFinding = true
+var C14BasketSeparatorAsFinding = false
 
 type c14Cand struct {
 	fam    int
